@@ -268,6 +268,22 @@ theorem gltf_doc_mode_count_imp (s : Scene) (w : W) (hs : SceneOK s) (h : writeS
   simp only [hidx, hx] at h2
   rw [← hcount]; exact h2
 
+/-- DOCUMENT LEVEL, sufficient condition: when every heap mesh is a point mesh or has a multiple of three indices, every
+    indexed primitive of the written document has an index count compatible with its mode (every glTF mesh of the document
+    was written for a heap mesh: `scene_dinv`). -/
+theorem gltf_doc_mode_count_of (s : Scene) (w : W) (hs : SceneOK s) (h : writeScene s = .ok w)
+    (hall : ∀ m ∈ s.meshHeap, m.topo = 1 ∨ m.indices.length % 3 = 0) : docModeCountOK w.doc = true := by
+  have hd := scene_dinv s w hs h
+  unfold docModeCountOK
+  rw [List.all_eq_true]
+  intro gm hgm
+  obtain ⟨id, mat, m, p, idx, h1, h2, _, h4, h5, h6, _, _⟩ := hd.meshes gm hgm
+  obtain ⟨x, hx, _, _, hcount, _⟩ := h6.2.2
+  have hx' : w.doc.accessors[idx]? = some x := hx
+  rw [h2]
+  simp only [List.all_cons, List.all_nil, Bool.and_true, h4, hx', h5, hcount]
+  exact (modeCountOK_written m.topo m.indices.length).mpr (hall m (List.mem_of_getElem? h1))
+
 /-! ### the scene-level statement with every topology inside the quantifier -/
 
 /-- scene hypotheses WITHOUT a topology clause: well-formed meshes and instances, congruent extension values -/
